@@ -837,6 +837,12 @@ func (s *Scanner) checkUnionInjection(stmt *ast.SetOperation, result *ScanResult
 				systemTable = true
 			}
 		}
+		// a system table joined to another table is read just the same
+		for _, join := range rightSelect.Joins {
+			if join.Right.Name != "" && s.isSystemTable(join.Right.Name) {
+				systemTable = true
+			}
+		}
 		if systemTable {
 			{
 				finding := Finding{
